@@ -222,13 +222,15 @@ def body():
             # "the GB/T 32918.4 value for the nonce drawn": C1 = [k]G for the nonce taken from the entropy source (32-byte draws written straight into the
             # four 64-bit limbs, i.e. little-endian on this platform; rejected when 0 or >= n);
             # the table interface uses the slot-th nonce of its eight, every other interface the last one it drew
-            ks = [k for k in (int.from_bytes(bytes(ev.get("draws32", [])[i:i + 32]), "little") for i in range(0, len(ev.get("draws32", [])), 32)) if 0 < k < n]
+            d32 = [bytes(ev.get("draws32", [])[i:i + 32]) for i in range(0, len(ev.get("draws32", [])), 32)]
+            ks = [k for k in (int.from_bytes(b, "little") for b in d32) if 0 < k < n]
+            ksbe = [k for k in (int.from_bytes(b, "big") for b in d32) if 0 < k < n]          # the other byte order is as good (implementation's business)
             su = ev.get("slotused", -1) if ev.get("slotused", -1) >= 0 else case.get("slot", 0)
             k = (ks[su] if len(ks) > su else None) if case["iface"] == "pre" else (ks[-1] if ks else None)
             if case.get("forced") and k == case["forced"]:
                 c.violation(key + ":zerostream", "the ciphertext was made with a nonce whose key stream is all zero (C2 = M in clear)", {"line": line, "event": ev})
                 continue
-            if k is None or mul(k, G) != (C1[0], C1[1]):
+            if (k is None or mul(k, G) != (C1[0], C1[1])) and not any(mul(kb, G) == (C1[0], C1[1]) for kb in ksbe[-9:]):
                 c.violation(key + ":nonce", "C1 of the ciphertext is not [k]G for the nonce drawn from the entropy source (%d draws logged)" % len(ks), {"line": line, "event": ev})
                 continue
             t, x2, y2 = kdf_table(d, C1 if C1[0] < p and C1[1] < p else None, len(msg), None)
